@@ -8,7 +8,7 @@
 import sys, os, re, json, shutil, glob
 VERIF = os.path.dirname(os.path.dirname(os.path.abspath(__file__)))
 ID, n = sys.argv[1], int(sys.argv[2])
-src = ('/tmp/mut-%s' if n < 3 else '/tmp/mut2-%s' if n < 5 else '/tmp/mut3-%s' if n < 7 else '/tmp/mut4-%s' if n < 9 else '/tmp/mut5-%s') % ID      # round 2 changes are numbered 3, 4; round 3: 5, 6
+src = ('/tmp/mut-%s' if n < 3 else '/tmp/mut2-%s' if n < 5 else '/tmp/mut3-%s' if n < 7 else '/tmp/mut4-%s' if n < 9 else '/tmp/mut5-%s' if n < 11 else '/tmp/mut6-%s') % ID      # round 2 changes are numbered 3, 4; round 3: 5, 6
 dst = os.path.join(VERIF, 'seeded', '%s-%d' % (ID, n)); os.makedirs(dst, exist_ok=True)
 patch = os.path.join(src, 'patch.diff' if n == 1 else 'patch%d.diff' % n)
 shutil.copy(patch, os.path.join(dst, 'patch.diff'))
